@@ -14,7 +14,7 @@ from streams.cluster import T0, hx
 
 NO_MODEL = True
 HEADER = 3
-REQUIRED_SHAPES = ["backup_fragment_checked", "primary_fragment_checked", "many_tables_before_compaction", "expired_by_ttl", "garbage_below_threshold"]
+REQUIRED_SHAPES = ["backup_fragment_checked", "primary_fragment_checked", "many_tables_before_compaction", "expired_by_ttl", "garbage_below_threshold", "destroy_during_compaction"]
 
 
 class Oracle:
@@ -36,6 +36,12 @@ class Oracle:
             self.cfg = dict(kv.split("=") for kv in a if "=" in kv)
             self.compacted, self.peak = False, 0
             return None
+        if name == "c.inter":
+            self.compacted = False
+            if reply.endswith("inner=-"):
+                return None          # no fragment left to compact: the point was not reached
+            self.hit("destroy_during_compaction")
+            return None if reply.startswith("ok inner=ran:ok") else "compaction worker vs Destroy: %s" % reply[:120]
         if name in ("c.put", "c.del", "bg.evict"):
             self.compacted = False
             if name == "c.put" and "PX" in a:
@@ -112,3 +118,13 @@ class Gen:
         yield "bg.evict"
         yield "bg.compact"
         yield "wb.slab dm"
+        if getattr(self, "ep", 0) % 2 == 0:
+            # the DMap is destroyed while the worker is about to compact one of its fragments (between picking the
+            # fragment and locking it): the worker must come back, and compaction must go on afterwards
+            yield "watchdog 20s"
+            yield "c.inter compact.fragment bg.compact -- c.destroy emb %d dm" % r.randrange(n)
+            for i in range(12):
+                ver += 1
+                yield "c.put emb %d dm %s %s" % (r.randrange(n), r.choice(keys), hx(b"a%d" % ver + b"q" * 60))
+            yield "bg.compact"
+            yield "wb.slab dm"
